@@ -60,6 +60,10 @@ def smt_cases():
     add(S([Group(Alt([L(0xD800), a]), cap=False), b]), "", "alt_lone_surrogate_or_a")
     add(S([Group(Alt([L(0x101), a]), cap=False), b]), "", "alt_nonascii_literal_or_a", widths=(1,))
     add(S([Look(L(0x20AC), neg=True), a]), "", "neg_lookahead_nonascii_literal", widths=(1,))
+    # an optional group that begins with ^ does not anchor the pattern
+    add(S([Quant(Group(S([Start(), L("-")]), cap=False), 0, 1), Quant(Esc("d"), 1, None)]), "", "optional_anchored_group_then_digits")
+    add(S([Quant(Group(S([Start(), a]), cap=False), 0, None), b]), "", "star_anchored_group_then_b")
+    add(S([Quant(Group(S([Start(), Quant(Esc("s"), 1, None)])), 0, 1), L("f")]), "", "optional_anchored_capture_then_f")
     # a loop over a multi-character literal group steps by whole iterations
     add(S([Quant(Group(S(lits("ab")), cap=False), 0, None), b]), "", "star_of_literal_group_then_b", nmax=4, widths=(1,))
     add(S([Quant(Group(S(lits("ab")), cap=False), 0, None, False), b]), "", "lazy_star_of_literal_group_then_b", widths=(1,))
